@@ -34,7 +34,7 @@ PROP = "C13"
 def graph_units(tier):
     cfgp = os.path.join(vlib.TMP, "graphs-cfg13.json")
     json.dump({"edges": list(c03.EDGES), "dplaces": ["default", "dir", "file", "same_as_root"], "rplaces": ["default", "nested_file"],
-               "dirs": ["relative"], "placed": c03.PLACED[:4] + ["deep_diamond"]}, open(cfgp, "w"))
+               "dirs": ["relative"], "placed": c03.PLACED[:4] + ["deep_diamond", "case_twins", "shared_importers3"]}, open(cfgp, "w"))
     r = vlib.run_tlc("Graphs", "Graphs.cfg", workers=4, env={"VERIF_CFG": cfgp}, timeout=600, metatag="c13g")
     vlib.tlc_must_succeed(r, "Graphs")
     cases = r.payloads("CASE")
